@@ -45,7 +45,7 @@ def gen(rng, tier, index):
     if not plan["steps"]:
         plan["steps"] = [{"tag": "_1", "outcomes": {}}]
     for st in plan["steps"]:
-        st["outcomes"] = {k: v for k, v in st["outcomes"].items() if k in stems and v != "wrong"}
+        st["outcomes"] = {k: v for k, v in st["outcomes"].items() if k in stems and v not in ("wrong", "relabel")}
     plan["writer"] = ("seqs", "db", "json", "seqs")[index % 4]
     plan["logger"] = rng.random() < 0.25
     plan["faults"] = "enumerate"
@@ -82,6 +82,7 @@ class World:
                                services=plan["services"])
         verif_apps.CALL_LOG.clear()
         outcome, exc = "returned", None
+        simos.set_pid(self.pid)
         try:
             with sim, sql, pool:
                 try:
@@ -107,6 +108,7 @@ class World:
         finally:
             sql.close_all()
             sim.abandon()
+            simos.set_pid(None)
         if sim.dead:
             outcome, exc = "killed", None
             sim.check_no_leak()
